@@ -22,6 +22,9 @@ pub struct Scenario {
     pub csv: bool,
     pub flush_rate: i64,
     pub keep_responses: bool,
+    /// build a fresh application for every execution (state inside the application, e.g. a prediction cache, starts cold each time)
+    #[allow(dead_code)]
+    pub fresh_app: bool,
 }
 
 pub fn query_alphabet() -> Vec<Value> {
@@ -83,6 +86,7 @@ pub fn ref_csv_header(format: &Value) -> String {
 pub struct Fixture {
     pub app: Arc<CompassApp>,
     pub scratch: Scratch,
+    pub spec: AppSpec,
 }
 
 pub fn fixture() -> Result<Fixture, String> {
@@ -92,7 +96,7 @@ pub fn fixture() -> Result<Fixture, String> {
 pub fn fixture_spec(spec: &AppSpec) -> Result<Fixture, String> {
     let scratch = Scratch::new("c19");
     let app = spec.build(&scratch.path.join("app"))?;
-    Ok(Fixture { app: Arc::new(app), scratch })
+    Ok(Fixture { app: Arc::new(app), scratch, spec: spec.clone() })
 }
 
 pub fn policy(path: &str, csv: bool, flush: i64) -> Result<ResponseOutputPolicy, String> {
@@ -164,8 +168,9 @@ pub fn run_scenario(ex: &Explorer, fx: &Fixture, sc: &Scenario, prefix: &[usize]
         }
     };
     let mut tasks: Vec<Task> = vec![];
+    let the_app = if sc.fresh_app { Arc::new(fx.spec.build(&fx.scratch.path.join("fresh_app"))?) } else { fx.app.clone() };
     for b in sc.batches.iter() {
-        let app = fx.app.clone();
+        let app = the_app.clone();
         let sink = sink.clone();
         let pb = pb.clone();
         let queries = b.clone();
@@ -302,17 +307,17 @@ pub fn scenarios(tier: Tier) -> Vec<(Scenario, Option<usize>)> {
     // two tasks x two queries: explored completely (no preemption bound)
     for (csv, flush, keep) in [(false, 1, true), (true, 2, true), (false, 2, false), (true, 1, false)] {
         v.push((
-            Scenario { name: format!("2x2_{}_{}_{}", if csv { "csv" } else { "jsonl" }, flush, if keep { "keep" } else { "discard" }), batches: vec![vec![q(0, "a0"), q(2, "a1")], vec![q(1, "b0"), q(4, "b1")]], csv, flush_rate: flush, keep_responses: keep },
+            Scenario { name: format!("2x2_{}_{}_{}", if csv { "csv" } else { "jsonl" }, flush, if keep { "keep" } else { "discard" }), batches: vec![vec![q(0, "a0"), q(2, "a1")], vec![q(1, "b0"), q(4, "b1")]], csv, flush_rate: flush, keep_responses: keep, fresh_app: false },
             None,
         ));
     }
     // three tasks: preemption bounded
     let b3 = tier.pick(2, 3);
-    v.push((Scenario { name: "3x1_jsonl".into(), batches: vec![vec![q(0, "a0")], vec![q(1, "b0")], vec![q(2, "c0")]], csv: false, flush_rate: 1, keep_responses: true }, Some(tier.pick(3, 5))));
-    v.push((Scenario { name: "3x2_csv".into(), batches: vec![vec![q(0, "a0"), q(3, "a1")], vec![q(1, "b0"), q(2, "b1")], vec![q(5, "c0"), q(4, "c1")]], csv: true, flush_rate: 2, keep_responses: true }, Some(b3)));
+    v.push((Scenario { name: "3x1_jsonl".into(), batches: vec![vec![q(0, "a0")], vec![q(1, "b0")], vec![q(2, "c0")]], csv: false, flush_rate: 1, keep_responses: true, fresh_app: false }, Some(tier.pick(3, 5))));
+    v.push((Scenario { name: "3x2_csv".into(), batches: vec![vec![q(0, "a0"), q(3, "a1")], vec![q(1, "b0"), q(2, "b1")], vec![q(5, "c0"), q(4, "c1")]], csv: true, flush_rate: 2, keep_responses: true, fresh_app: false }, Some(b3)));
     if tier == Tier::Thorough {
-        v.push((Scenario { name: "3x2_jsonl_discard".into(), batches: vec![vec![q(0, "a0"), q(3, "a1")], vec![q(1, "b0"), q(2, "b1")], vec![q(5, "c0"), q(4, "c1")]], csv: false, flush_rate: 3, keep_responses: false }, Some(3)));
-        v.push((Scenario { name: "2x3_jsonl".into(), batches: vec![vec![q(0, "a0"), q(2, "a1"), q(3, "a2")], vec![q(1, "b0"), q(4, "b1"), q(5, "b2")]], csv: false, flush_rate: 2, keep_responses: true }, Some(4)));
+        v.push((Scenario { name: "3x2_jsonl_discard".into(), batches: vec![vec![q(0, "a0"), q(3, "a1")], vec![q(1, "b0"), q(2, "b1")], vec![q(5, "c0"), q(4, "c1")]], csv: false, flush_rate: 3, keep_responses: false, fresh_app: false }, Some(3)));
+        v.push((Scenario { name: "2x3_jsonl".into(), batches: vec![vec![q(0, "a0"), q(2, "a1"), q(3, "a2")], vec![q(1, "b0"), q(4, "b1"), q(5, "b2")]], csv: false, flush_rate: 2, keep_responses: true, fresh_app: false }, Some(4)));
     }
     v
 }
